@@ -206,6 +206,22 @@ def stray_corpus():
                     continue
                 for form in STRAY_FORM[d]:
                     out.append((e, d, base, text.replace('{S0}', '#[educe(%s)] ' % form), pos))
+                # the educed trait with a type-level parameter of its own (explicit bound modes, names, `new`): the scan below type level may not depend on it
+                if pos in ('sn.f1', 'st.1', 'en.V0.1', 'en.V1.f1', 'en.V0', 'en.V1', 'un.f1') or pos.startswith('en.V1.f1/') or pos.startswith('en.V0/'):
+                    tlps = ['bound = false', 'bound(*)', 'bound(u8: Copy)'] if e not in ('Deref', 'DerefMut') else []
+                    tlps += {'Debug': ['name = false'] + (['named_field = %s' % ('false' if pos.startswith('sn') else 'true')] if pos[:2] in ('sn', 'st') else []), 'Default': ['new']}.get(e, [])
+                    for tp in tlps:
+                        if pos == 'un.f1' and (tp.startswith('name') or e in ('Debug', 'PartialEq', 'Hash')):
+                            continue        # (the union forms of these traits take no bound)
+                        if e == 'Into':
+                            t2 = text.replace('#[educe(Into(u8))] struct', '#[educe(Into(u8, %s))] struct' % tp, 1).replace('#[educe(Into(u8))] enum', '#[educe(Into(u8, %s))] enum' % tp, 1)
+                        elif '#[educe(%s(unsafe))]' % e in text:
+                            t2 = text.replace('#[educe(%s(unsafe))]' % e, '#[educe(%s(unsafe, %s))]' % (e, tp), 1)
+                        else:
+                            t2 = text.replace('#[derive(Educe)] #[educe(%s)]' % e, '#[derive(Educe)] #[educe(%s(%s))]' % (e, tp), 1)
+                        if t2 == text:
+                            continue
+                        out.append((e, d, t2.replace('{S0}', ''), t2.replace('{S0}', '#[educe(%s)] ' % STRAY_FORM[d][0]), pos + '|tl:' + tp))
                 # the educed trait's own parameter on the same field in an earlier / later attribute, foreign attributes in between
                 if e in OWN_FIELD and pos in ('sn.f1', 'en.V1.f1', 'st.1', 'en.V0.1') and not (e == 'Debug' and pos in ('st.1', 'en.V0.1')):
                     own = '#[educe(%s)] ' % OWN_FIELD[e]
